@@ -26,12 +26,16 @@ Fixpoint first_clean_log (sp : space) (motif_of : nat -> space) (blocks : list (
 (* twin of Blocks.block_level that threads the diagram in exactly the same way and returns
    (log of examined blocks, nodes whose seeds/sets were set to []) *)
 Fixpoint block_level_log (N : net) (cfg : config) (check_maa opt_src : bool) (size_limit : option nat)
-         (d : sd) (cur : list nat) (next : list nat) (tape : list bool)
+         (d : sd) (cur : list nat) (next : list nat) (tape : list bool) (visited : list nat)
   : list clean_entry * list nat :=
   match cur with
   | [] => ([], [])
   | x :: cur' =>
-      if n_exp (get d x) then block_level_log N cfg check_maa opt_src size_limit d cur' next tape else
+      if n_exp (get d x) then
+        (if mem_nat x visited then block_level_log N cfg check_maa opt_src size_limit d cur' next tape visited
+         else block_level_log N cfg check_maa opt_src size_limit d cur' (union_nat next (successors d x)) tape (x :: visited))
+      else
+      let visited := x :: visited in
       if over_limit size_limit d then ([], []) else
       let sp := n_space (get d x) in
       let srcs := sources_in_b N sp in
@@ -42,7 +46,7 @@ Fixpoint block_level_log (N : net) (cfg : config) (check_maa opt_src : bool) (si
         else
           let '(d1, kids) := ensure_children N d x (map (merge sp) (source_valuations (nvars N) srcs)) [] in
           let d2 := set_empty_seeds (clear_cands (upd_node d1 x (fun y => set_exp y true)) x) x in
-          let '(lg, em) := block_level_log N cfg check_maa opt_src size_limit d2 cur' (union_nat next kids) tape in
+          let '(lg, em) := block_level_log N cfg check_maa opt_src size_limit d2 cur' (union_nat next kids) tape visited in
           (lg, x :: em)
       else
         let '(d1, r, succ0) := node_successors N cfg d x in
@@ -50,35 +54,35 @@ Fixpoint block_level_log (N : net) (cfg : config) (check_maa opt_src : bool) (si
         | RUnit =>
             let succ := sort_nat succ0 in
             match succ with
-            | [] => block_level_log N cfg check_maa opt_src size_limit d1 cur' next tape
+            | [] => block_level_log N cfg check_maa opt_src size_limit d1 cur' next tape visited
             | [s] => if negb check_maa
-                     then block_level_log N cfg check_maa opt_src size_limit d1 cur' (union_nat next [s]) tape
+                     then block_level_log N cfg check_maa opt_src size_limit d1 cur' (union_nat next [s]) tape visited
                      else
                        let blocks := sort_blocks (minimal_blocks (group_blocks N d1 x succ)) in
                        let here := first_clean_log sp (first_motif d1 x) blocks tape in
                        let '(clean, tape1) := first_clean blocks tape in
                        match clean with
                        | Some ns =>
-                           let '(lg, em) := block_level_log N cfg check_maa opt_src size_limit (set_empty_seeds d1 x) cur' (union_nat next ns) tape1 in
+                           let '(lg, em) := block_level_log N cfg check_maa opt_src size_limit (set_empty_seeds d1 x) cur' (union_nat next ns) tape1 visited in
                            (here ++ lg, x :: em)
                        | None =>
-                           let '(lg, em) := block_level_log N cfg check_maa opt_src size_limit d1 cur' (union_nat next succ) tape1 in
+                           let '(lg, em) := block_level_log N cfg check_maa opt_src size_limit d1 cur' (union_nat next succ) tape1 visited in
                            (here ++ lg, em)
                        end
             | _ =>
                 let blocks := sort_blocks (minimal_blocks (group_blocks N d1 x succ)) in
                 if negb check_maa
                 then block_level_log N cfg check_maa opt_src size_limit d1 cur'
-                                 (union_nat next (match blocks with (_, ns) :: _ => ns | [] => [] end)) tape
+                                 (union_nat next (match blocks with (_, ns) :: _ => ns | [] => [] end)) tape visited
                 else
                   let here := first_clean_log sp (first_motif d1 x) blocks tape in
                   let '(clean, tape1) := first_clean blocks tape in
                   match clean with
                   | Some ns =>
-                      let '(lg, em) := block_level_log N cfg check_maa opt_src size_limit (set_empty_seeds d1 x) cur' (union_nat next ns) tape1 in
+                      let '(lg, em) := block_level_log N cfg check_maa opt_src size_limit (set_empty_seeds d1 x) cur' (union_nat next ns) tape1 visited in
                       (here ++ lg, x :: em)
                   | None =>
-                      let '(lg, em) := block_level_log N cfg check_maa opt_src size_limit d1 cur' (union_nat next succ) tape1 in
+                      let '(lg, em) := block_level_log N cfg check_maa opt_src size_limit d1 cur' (union_nat next succ) tape1 visited in
                       (here ++ lg, em)
                   end
             end
@@ -87,17 +91,17 @@ Fixpoint block_level_log (N : net) (cfg : config) (check_maa opt_src : bool) (si
   end.
 
 Fixpoint block_loop_log (fuel : nat) (N : net) (cfg : config) (check_maa opt_src : bool) (size_limit : option nat)
-         (d : sd) (cur : list nat) (tape : list bool) : list clean_entry * list nat :=
+         (d : sd) (cur : list nat) (tape : list bool) (visited : list nat) : list clean_entry * list nat :=
   match fuel with
   | O => ([], [])
   | S f =>
       match cur with
       | [] => ([], [])
       | _ =>
-          let '(d1, r, next, tape1) := block_level N cfg check_maa opt_src size_limit d (sort_nat cur) [] tape in
-          let '(lg, em) := block_level_log N cfg check_maa opt_src size_limit d (sort_nat cur) [] tape in
+          let '(d1, r, next, tape1, visited1) := block_level N cfg check_maa opt_src size_limit d (sort_nat cur) [] tape visited in
+          let '(lg, em) := block_level_log N cfg check_maa opt_src size_limit d (sort_nat cur) [] tape visited in
           match r with
-          | RUnit => let '(lg2, em2) := block_loop_log f N cfg check_maa opt_src size_limit d1 next tape1 in
+          | RUnit => let '(lg2, em2) := block_loop_log f N cfg check_maa opt_src size_limit d1 next tape1 visited1 in
                      (lg ++ lg2, em ++ em2)
           | _ => (lg, em)
           end
@@ -106,7 +110,7 @@ Fixpoint block_loop_log (fuel : nat) (N : net) (cfg : config) (check_maa opt_src
 
 Definition expand_block_log (fuel : nat) (N : net) (cfg : config) (d : sd) (check_maa opt_src : bool)
            (size_limit : option nat) (tape : list bool) : list clean_entry * list nat :=
-  block_loop_log fuel N cfg check_maa opt_src size_limit d [0] tape.
+  block_loop_log fuel N cfg check_maa opt_src size_limit d [0] tape [].
 
 (* the contract of the tape: every positive answer is justified *)
 Definition clean_log_ok (N : net) (lg : list clean_entry) : Prop :=
@@ -452,105 +456,112 @@ Inductive norm_choice (N : net) (maa : bool) (d1 : sd) (x : nat) (sp : space)
 Definition log_after (here : list clean_entry) (em0 : list nat) (p : list clean_entry * list nat)
   : list clean_entry * list nat := (here ++ fst p, em0 ++ snd p).
 
-Lemma level_cons : forall N cfg maa opt sz d x cur next tape,
-  (n_exp (get d x) = true /\
-   block_level N cfg maa opt sz d (x :: cur) next tape = block_level N cfg maa opt sz d cur next tape /\
-   block_level_log N cfg maa opt sz d (x :: cur) next tape = block_level_log N cfg maa opt sz d cur next tape) \/
-  (exists d' r next' tape', (r = RBool false \/ r = RRaised ErrMotifLimit) /\
-   block_level N cfg maa opt sz d (x :: cur) next tape = (d', r, next', tape')) \/
+Lemma level_cons : forall N cfg maa opt sz d x cur next tape vis,
+  (n_exp (get d x) = true /\ mem_nat x vis = true /\
+   block_level N cfg maa opt sz d (x :: cur) next tape vis = block_level N cfg maa opt sz d cur next tape vis /\
+   block_level_log N cfg maa opt sz d (x :: cur) next tape vis = block_level_log N cfg maa opt sz d cur next tape vis) \/
+  (n_exp (get d x) = true /\ mem_nat x vis = false /\
+   block_level N cfg maa opt sz d (x :: cur) next tape vis =
+     block_level N cfg maa opt sz d cur (union_nat next (successors d x)) tape (x :: vis) /\
+   block_level_log N cfg maa opt sz d (x :: cur) next tape vis =
+     block_level_log N cfg maa opt sz d cur (union_nat next (successors d x)) tape (x :: vis)) \/
+  (exists d' r next' tape' vis', (r = RBool false \/ r = RRaised ErrMotifLimit) /\
+   block_level N cfg maa opt sz d (x :: cur) next tape vis = (d', r, next', tape', vis')) \/
   (n_exp (get d x) = false /\ opt = true /\ sources_in_b N (n_space (get d x)) <> [] /\
-   block_level N cfg maa opt sz d (x :: cur) next tape =
-     block_level N cfg maa opt sz (ff_step N d x) cur (union_nat next (ff_kids N d x)) tape /\
-   block_level_log N cfg maa opt sz d (x :: cur) next tape =
-     log_after [] [x] (block_level_log N cfg maa opt sz (ff_step N d x) cur (union_nat next (ff_kids N d x)) tape)) \/
+   block_level N cfg maa opt sz d (x :: cur) next tape vis =
+     block_level N cfg maa opt sz (ff_step N d x) cur (union_nat next (ff_kids N d x)) tape (x :: vis) /\
+   block_level_log N cfg maa opt sz d (x :: cur) next tape vis =
+     log_after [] [x] (block_level_log N cfg maa opt sz (ff_step N d x) cur (union_nat next (ff_kids N d x)) tape (x :: vis))) \/
   (n_exp (get d x) = false /\ exists d1 ns b here tape1,
    expand_one N cfg d x = (d1, RUnit) /\ norm_choice N maa d1 x (n_space (get d x)) ns b here /\
-   block_level N cfg maa opt sz d (x :: cur) next tape =
-     block_level N cfg maa opt sz (if b then set_empty_seeds d1 x else d1) cur (union_nat next ns) tape1 /\
-   block_level_log N cfg maa opt sz d (x :: cur) next tape =
+   block_level N cfg maa opt sz d (x :: cur) next tape vis =
+     block_level N cfg maa opt sz (if b then set_empty_seeds d1 x else d1) cur (union_nat next ns) tape1 (x :: vis) /\
+   block_level_log N cfg maa opt sz d (x :: cur) next tape vis =
      log_after here (if b then [x] else [])
-       (block_level_log N cfg maa opt sz (if b then set_empty_seeds d1 x else d1) cur (union_nat next ns) tape1)).
+       (block_level_log N cfg maa opt sz (if b then set_empty_seeds d1 x else d1) cur (union_nat next ns) tape1 (x :: vis))).
 Proof.
-  intros N cfg maa opt sz d x cur next tape. cbn [block_level block_level_log].
+  intros N cfg maa opt sz d x cur next tape vis. cbn [block_level block_level_log].
   destruct (n_exp (get d x)) eqn:Ex.
-  { left. split; [reflexivity|]. split; reflexivity. }
-  right.
+  { destruct (mem_nat x vis) eqn:Em.
+    - left. split; [reflexivity|]. split; [reflexivity|]. split; reflexivity.
+    - right. left. split; [reflexivity|]. split; [reflexivity|]. split; reflexivity. }
+  right. right.
   destruct (over_limit sz d).
-  { left. exists d, (RBool false), next, tape. split; [left; reflexivity|reflexivity]. }
-  set (NORMAL := fun (P : sd * result * list nat * list bool) (L : list clean_entry * list nat) =>
-    (exists d' r next' tape', (r = RBool false \/ r = RRaised ErrMotifLimit) /\ P = (d', r, next', tape')) \/
+  { left. exists d, (RBool false), next, tape, (x :: vis). split; [left; reflexivity|reflexivity]. }
+  set (NORMAL := fun (P : sd * result * list nat * list bool * list nat) (L : list clean_entry * list nat) =>
+    (exists d' r next' tape' vis', (r = RBool false \/ r = RRaised ErrMotifLimit) /\ P = (d', r, next', tape', vis')) \/
     (false = false /\ opt = true /\ sources_in_b N (n_space (get d x)) <> [] /\
-     P = block_level N cfg maa opt sz (ff_step N d x) cur (union_nat next (ff_kids N d x)) tape /\
-     L = log_after [] [x] (block_level_log N cfg maa opt sz (ff_step N d x) cur (union_nat next (ff_kids N d x)) tape)) \/
+     P = block_level N cfg maa opt sz (ff_step N d x) cur (union_nat next (ff_kids N d x)) tape (x :: vis) /\
+     L = log_after [] [x] (block_level_log N cfg maa opt sz (ff_step N d x) cur (union_nat next (ff_kids N d x)) tape (x :: vis))) \/
     (false = false /\ exists d1 ns b here tape1,
      expand_one N cfg d x = (d1, RUnit) /\ norm_choice N maa d1 x (n_space (get d x)) ns b here /\
-     P = block_level N cfg maa opt sz (if b then set_empty_seeds d1 x else d1) cur (union_nat next ns) tape1 /\
+     P = block_level N cfg maa opt sz (if b then set_empty_seeds d1 x else d1) cur (union_nat next ns) tape1 (x :: vis) /\
      L = log_after here (if b then [x] else [])
-       (block_level_log N cfg maa opt sz (if b then set_empty_seeds d1 x else d1) cur (union_nat next ns) tape1))).
+       (block_level_log N cfg maa opt sz (if b then set_empty_seeds d1 x else d1) cur (union_nat next ns) tape1 (x :: vis)))).
   assert (Hnormal : NORMAL
       (let '(d1, r, succ0) := node_successors N cfg d x in
         match r with
         | RUnit =>
             let succ := sort_nat succ0 in
             match succ with
-            | [] => block_level N cfg maa opt sz d1 cur next tape
+            | [] => block_level N cfg maa opt sz d1 cur next tape (x :: vis)
             | [s] => if negb maa
-                     then block_level N cfg maa opt sz d1 cur (union_nat next [s]) tape
+                     then block_level N cfg maa opt sz d1 cur (union_nat next [s]) tape (x :: vis)
                      else
                        let blocks := sort_blocks (minimal_blocks (group_blocks N d1 x succ)) in
                        let '(clean, tape1) := first_clean blocks tape in
                        match clean with
-                       | Some ns => block_level N cfg maa opt sz (set_empty_seeds d1 x) cur (union_nat next ns) tape1
-                       | None => block_level N cfg maa opt sz d1 cur (union_nat next succ) tape1
+                       | Some ns => block_level N cfg maa opt sz (set_empty_seeds d1 x) cur (union_nat next ns) tape1 (x :: vis)
+                       | None => block_level N cfg maa opt sz d1 cur (union_nat next succ) tape1 (x :: vis)
                        end
             | _ =>
                 let blocks := sort_blocks (minimal_blocks (group_blocks N d1 x succ)) in
                 if negb maa
                 then block_level N cfg maa opt sz d1 cur
-                                 (union_nat next (match blocks with (_, ns) :: _ => ns | [] => [] end)) tape
+                                 (union_nat next (match blocks with (_, ns) :: _ => ns | [] => [] end)) tape (x :: vis)
                 else
                   let '(clean, tape1) := first_clean blocks tape in
                   match clean with
-                  | Some ns => block_level N cfg maa opt sz (set_empty_seeds d1 x) cur (union_nat next ns) tape1
-                  | None => block_level N cfg maa opt sz d1 cur (union_nat next succ) tape1
+                  | Some ns => block_level N cfg maa opt sz (set_empty_seeds d1 x) cur (union_nat next ns) tape1 (x :: vis)
+                  | None => block_level N cfg maa opt sz d1 cur (union_nat next succ) tape1 (x :: vis)
                   end
             end
-        | _ => (d1, r, next, tape)
+        | _ => (d1, r, next, tape, x :: vis)
         end)
       (let '(d1, r, succ0) := node_successors N cfg d x in
         match r with
         | RUnit =>
             let succ := sort_nat succ0 in
             match succ with
-            | [] => block_level_log N cfg maa opt sz d1 cur next tape
+            | [] => block_level_log N cfg maa opt sz d1 cur next tape (x :: vis)
             | [s] => if negb maa
-                     then block_level_log N cfg maa opt sz d1 cur (union_nat next [s]) tape
+                     then block_level_log N cfg maa opt sz d1 cur (union_nat next [s]) tape (x :: vis)
                      else
                        let blocks := sort_blocks (minimal_blocks (group_blocks N d1 x succ)) in
                        let here := first_clean_log (n_space (get d x)) (first_motif d1 x) blocks tape in
                        let '(clean, tape1) := first_clean blocks tape in
                        match clean with
                        | Some ns =>
-                           let '(lg, em) := block_level_log N cfg maa opt sz (set_empty_seeds d1 x) cur (union_nat next ns) tape1 in
+                           let '(lg, em) := block_level_log N cfg maa opt sz (set_empty_seeds d1 x) cur (union_nat next ns) tape1 (x :: vis) in
                            (here ++ lg, x :: em)
                        | None =>
-                           let '(lg, em) := block_level_log N cfg maa opt sz d1 cur (union_nat next succ) tape1 in
+                           let '(lg, em) := block_level_log N cfg maa opt sz d1 cur (union_nat next succ) tape1 (x :: vis) in
                            (here ++ lg, em)
                        end
             | _ =>
                 let blocks := sort_blocks (minimal_blocks (group_blocks N d1 x succ)) in
                 if negb maa
                 then block_level_log N cfg maa opt sz d1 cur
-                                 (union_nat next (match blocks with (_, ns) :: _ => ns | [] => [] end)) tape
+                                 (union_nat next (match blocks with (_, ns) :: _ => ns | [] => [] end)) tape (x :: vis)
                 else
                   let here := first_clean_log (n_space (get d x)) (first_motif d1 x) blocks tape in
                   let '(clean, tape1) := first_clean blocks tape in
                   match clean with
                   | Some ns =>
-                      let '(lg, em) := block_level_log N cfg maa opt sz (set_empty_seeds d1 x) cur (union_nat next ns) tape1 in
+                      let '(lg, em) := block_level_log N cfg maa opt sz (set_empty_seeds d1 x) cur (union_nat next ns) tape1 (x :: vis) in
                       (here ++ lg, x :: em)
                   | None =>
-                      let '(lg, em) := block_level_log N cfg maa opt sz d1 cur (union_nat next succ) tape1 in
+                      let '(lg, em) := block_level_log N cfg maa opt sz d1 cur (union_nat next succ) tape1 (x :: vis) in
                       (here ++ lg, em)
                   end
             end
@@ -560,43 +571,43 @@ Proof.
     pose proof (Termination.expand_one_result N cfg d x) as Hres.
     destruct (expand_one N cfg d x) as [d1 r0] eqn:Ee. simpl in Hres.
     destruct Hres as [Hres|Hres]; subst r0.
-    2:{ left. exists d1, (RRaised ErrMotifLimit), next, tape. split; [right; reflexivity|reflexivity]. }
+    2:{ left. exists d1, (RRaised ErrMotifLimit), next, tape, (x :: vis). split; [right; reflexivity|reflexivity]. }
     right. right. split; [reflexivity|]. exists d1.
     (* the plain cases: everything is handed over, nothing is logged *)
     assert (Hall : forall tp,
       exists ns b here tape1, (d1, RUnit) = (d1, RUnit) /\ norm_choice N maa d1 x (n_space (get d x)) ns b here /\
-        block_level N cfg maa opt sz d1 cur (union_nat next (sort_nat (successors d1 x))) tp =
-        block_level N cfg maa opt sz (if b then set_empty_seeds d1 x else d1) cur (union_nat next ns) tape1 /\
-        block_level_log N cfg maa opt sz d1 cur (union_nat next (sort_nat (successors d1 x))) tp =
+        block_level N cfg maa opt sz d1 cur (union_nat next (sort_nat (successors d1 x))) tp (x :: vis) =
+        block_level N cfg maa opt sz (if b then set_empty_seeds d1 x else d1) cur (union_nat next ns) tape1 (x :: vis) /\
+        block_level_log N cfg maa opt sz d1 cur (union_nat next (sort_nat (successors d1 x))) tp (x :: vis) =
         log_after here (if b then [x] else [])
-          (block_level_log N cfg maa opt sz (if b then set_empty_seeds d1 x else d1) cur (union_nat next ns) tape1)).
+          (block_level_log N cfg maa opt sz (if b then set_empty_seeds d1 x else d1) cur (union_nat next ns) tape1 (x :: vis))).
     { intro tp. exists (sort_nat (successors d1 x)), false, [], tp. split; [reflexivity|].
       split; [apply nc_all|]. split; [reflexivity|]. unfold log_after. simpl.
-      destruct (block_level_log N cfg maa opt sz d1 cur (union_nat next (sort_nat (successors d1 x))) tp).
+      destruct (block_level_log N cfg maa opt sz d1 cur (union_nat next (sort_nat (successors d1 x))) tp (x :: vis)).
       reflexivity. }
     assert (Hclean : maa = true -> forall tp,
       exists ns b here tape1, (d1, RUnit) = (d1, RUnit) /\ norm_choice N maa d1 x (n_space (get d x)) ns b here /\
         (let '(clean, tape1) :=
            first_clean (sort_blocks (minimal_blocks (group_blocks N d1 x (sort_nat (successors d1 x))))) tp in
          match clean with
-         | Some ns => block_level N cfg maa opt sz (set_empty_seeds d1 x) cur (union_nat next ns) tape1
-         | None => block_level N cfg maa opt sz d1 cur (union_nat next (sort_nat (successors d1 x))) tape1
+         | Some ns => block_level N cfg maa opt sz (set_empty_seeds d1 x) cur (union_nat next ns) tape1 (x :: vis)
+         | None => block_level N cfg maa opt sz d1 cur (union_nat next (sort_nat (successors d1 x))) tape1 (x :: vis)
          end) =
-        block_level N cfg maa opt sz (if b then set_empty_seeds d1 x else d1) cur (union_nat next ns) tape1 /\
+        block_level N cfg maa opt sz (if b then set_empty_seeds d1 x else d1) cur (union_nat next ns) tape1 (x :: vis) /\
         (let '(clean, tape1) :=
            first_clean (sort_blocks (minimal_blocks (group_blocks N d1 x (sort_nat (successors d1 x))))) tp in
          match clean with
          | Some ns =>
-             let '(lg, em) := block_level_log N cfg maa opt sz (set_empty_seeds d1 x) cur (union_nat next ns) tape1 in
+             let '(lg, em) := block_level_log N cfg maa opt sz (set_empty_seeds d1 x) cur (union_nat next ns) tape1 (x :: vis) in
              (first_clean_log (n_space (get d x)) (first_motif d1 x)
                 (sort_blocks (minimal_blocks (group_blocks N d1 x (sort_nat (successors d1 x))))) tp ++ lg, x :: em)
          | None =>
-             let '(lg, em) := block_level_log N cfg maa opt sz d1 cur (union_nat next (sort_nat (successors d1 x))) tape1 in
+             let '(lg, em) := block_level_log N cfg maa opt sz d1 cur (union_nat next (sort_nat (successors d1 x))) tape1 (x :: vis) in
              (first_clean_log (n_space (get d x)) (first_motif d1 x)
                 (sort_blocks (minimal_blocks (group_blocks N d1 x (sort_nat (successors d1 x))))) tp ++ lg, em)
          end) =
         log_after here (if b then [x] else [])
-          (block_level_log N cfg maa opt sz (if b then set_empty_seeds d1 x else d1) cur (union_nat next ns) tape1)).
+          (block_level_log N cfg maa opt sz (if b then set_empty_seeds d1 x else d1) cur (union_nat next ns) tape1 (x :: vis))).
     { intros Hmaa tp.
       pose proof (first_clean_some_log (n_space (get d x)) (first_motif d1 x)
                     (sort_blocks (minimal_blocks (group_blocks N d1 x (sort_nat (successors d1 x))))) tp) as Hlog.
@@ -609,13 +620,13 @@ Proof.
         + apply (nc_block N maa d1 x _ b ns true); [apply sort_blocks_In; exact Hb| |discriminate].
           intros _. split; [exact Hmaa|exact Hl].
         + split; [reflexivity|]. unfold log_after.
-          destruct (block_level_log N cfg maa opt sz (set_empty_seeds d1 x) cur (union_nat next ns) tape1).
+          destruct (block_level_log N cfg maa opt sz (set_empty_seeds d1 x) cur (union_nat next ns) tape1 (x :: vis)).
           reflexivity.
       - exists (sort_nat (successors d1 x)), false,
           (first_clean_log (n_space (get d x)) (first_motif d1 x)
                 (sort_blocks (minimal_blocks (group_blocks N d1 x (sort_nat (successors d1 x))))) tp), tape1.
         split; [reflexivity|]. split; [apply nc_all|]. split; [reflexivity|]. unfold log_after.
-        destruct (block_level_log N cfg maa opt sz d1 cur (union_nat next (sort_nat (successors d1 x))) tape1).
+        destruct (block_level_log N cfg maa opt sz d1 cur (union_nat next (sort_nat (successors d1 x))) tape1 (x :: vis)).
         reflexivity. }
     destruct (sort_nat (successors d1 x)) as [|s [|s2 rest]] eqn:Esucc.
     - specialize (Hall tape). rewrite union_nat_nil in Hall. exact Hall.
@@ -629,7 +640,7 @@ Proof.
       + apply (nc_block N false d1 x _ b ns false); [|discriminate|reflexivity].
         apply sort_blocks_In. rewrite Esucc, Eb. left. reflexivity.
       + split; [reflexivity|]. unfold log_after. simpl.
-        destruct (block_level_log N cfg false opt sz d1 cur (union_nat next ns) tape). reflexivity. }
+        destruct (block_level_log N cfg false opt sz d1 cur (union_nat next ns) tape (x :: vis)). reflexivity. }
   destruct (sources_in_b N (n_space (get d x))) as [|w srcs] eqn:Es.
   { simpl negb. cbv iota. simpl andb. cbv iota.
     destruct Hnormal as [H|[(_ & _ & H & _)|(_ & H)]]; [left; exact H|contradiction H; reflexivity|].
@@ -639,16 +650,16 @@ Proof.
       right. right. split; [reflexivity|exact H]. }
   clear Hnormal NORMAL.
   destruct (Nat.ltb (max_motifs cfg) (size d + Nat.pow 2 (length (w :: srcs)))).
-  { left. exists d, (RRaised ErrMotifLimit), next, tape. split; [right; reflexivity|reflexivity]. }
+  { left. exists d, (RRaised ErrMotifLimit), next, tape, (x :: vis). split; [right; reflexivity|reflexivity]. }
   destruct (match sz with Some k => Nat.ltb k (size d + Nat.pow 2 (length (w :: srcs))) | None => false end).
-  { left. exists d, (RBool false), next, tape. split; [left; reflexivity|reflexivity]. }
+  { left. exists d, (RBool false), next, tape, (x :: vis). split; [left; reflexivity|reflexivity]. }
   right. left. split; [reflexivity|]. split; [reflexivity|]. split; [discriminate|].
   unfold ff_step, ff_kids, ff_motifs. rewrite Es.
   pose proof (ensure_children_fst N (map (merge (n_space (get d x))) (source_valuations (nvars N) (w :: srcs))) d x [])
     as Hfst.
   destruct (ensure_children N d x (map (merge (n_space (get d x))) (source_valuations (nvars N) (w :: srcs))) [])
     as [d1 kids]. simpl in Hfst. subst d1. split; [reflexivity|]. unfold log_after. simpl.
-  destruct (block_level_log N cfg maa true sz _ cur (union_nat next kids) tape). reflexivity.
+  destruct (block_level_log N cfg maa true sz _ cur (union_nat next kids) tape (x :: vis)). reflexivity.
 Qed.
 
 (* ====================================================================== *)
@@ -1583,27 +1594,52 @@ Proof.
     + intro Hm. apply (attr_local_mono N _ x ns); [intros c Hc; apply pending_new; exact Hc|apply La; exact Hm].
 Qed.
 
-Lemma level_inv : forall N cfg maa att opt sz, 1 <= max_motifs cfg -> (att = true -> maa = true) ->
-  forall cur d next tape d1 next1 tape1,
-  LInv N att d (cur ++ next) ->
-  block_level N cfg maa opt sz d cur next tape = (d1, RUnit, next1, tape1) ->
-  (att = true -> clean_log_ok N (fst (block_level_log N cfg maa opt sz d cur next tape))) ->
-  LInv N att d1 next1 /\ stable d d1 /\
-  (att = true -> forall y, In y (snd (block_level_log N cfg maa opt sz d cur next tape)) -> NoOwn N d1 y).
+Lemma LInv_mono : forall N maa d P P', (forall c, In c P -> In c P') -> ids_ok d P' ->
+  LInv N maa d P -> LInv N maa d P'.
 Proof.
-  intros N cfg maa att opt sz Hmm Hatt. induction cur as [|x cur IH]; intros d next tape d1 next1 tape1 Hinv E Hlog.
-  - cbn [block_level] in E. injection E as E1 E2 E3. subst d1 next1 tape1.
-    split; [exact Hinv|]. split; [apply stable_refl|]. intros _ y []. 
-  - destruct (level_cons N cfg maa opt sz d x cur next tape)
-      as [(Hexp & E1 & L1)|[(d' & r & n' & t' & Hr & E1)|[(Hex & Hopt & Hsrc & E1 & L1)|
-          (Hex & d1' & ns & b & here & tape1' & Ee & Hch & E1 & L1)]]].
+  intros N maa d P P' Hsub Hids (H1 & H2 & H3 & H4 & H5 & H6 & H7).
+  split; [exact H1|]. split; [exact H2|]. split; [exact H3|]. split; [exact Hids|].
+  split; [destruct H5 as [H5|H5]; [left; exact H5|right; apply Hsub; exact H5]|].
+  split; [apply (min_good_mono N d P); assumption|].
+  intro Hm. apply (attr_good_mono N d P); [exact Hsub|apply H7; exact Hm].
+Qed.
+
+(* an expanded node the call meets for the first time hands on its successors: they become pending *)
+Lemma LInv_hand : forall N maa d x cur next, n_exp (get d x) = true -> LInv N maa d (x :: cur ++ next) ->
+  LInv N maa d (cur ++ union_nat next (successors d x)).
+Proof.
+  intros N maa d x cur next Hx Hinv. pose proof Hinv as (H1 & _ & _ & H4 & _).
+  apply (LInv_mono N maa d (cur ++ next)).
+  - intros c Hc. apply pending_sub. exact Hc.
+  - apply (pending_ids d d cur next (successors d x) x (extends_refl d) H4).
+    intros c Hc. apply (successors_valid N d x c H1 Hc).
+  - apply (LInv_skip N maa d x (cur ++ next) Hx Hinv).
+Qed.
+
+Lemma level_inv : forall N cfg maa att opt sz, 1 <= max_motifs cfg -> (att = true -> maa = true) ->
+  forall cur d next tape vis d1 next1 tape1 vis1,
+  LInv N att d (cur ++ next) ->
+  block_level N cfg maa opt sz d cur next tape vis = (d1, RUnit, next1, tape1, vis1) ->
+  (att = true -> clean_log_ok N (fst (block_level_log N cfg maa opt sz d cur next tape vis))) ->
+  LInv N att d1 next1 /\ stable d d1 /\
+  (att = true -> forall y, In y (snd (block_level_log N cfg maa opt sz d cur next tape vis)) -> NoOwn N d1 y).
+Proof.
+  intros N cfg maa att opt sz Hmm Hatt. induction cur as [|x cur IH]; intros d next tape vis d1 next1 tape1 vis1 Hinv E Hlog.
+  - cbn [block_level] in E. injection E as E1 E2 E3 E4. subst d1 next1 tape1 vis1.
+    split; [exact Hinv|]. split; [apply stable_refl|]. intros _ y [].
+  - destruct (level_cons N cfg maa opt sz d x cur next tape vis)
+      as [(Hexp & _ & E1 & L1)|[(Hexp & _ & E1 & L1)|[(d' & r & n' & t' & v' & Hr & E1)|[(Hex & Hopt & Hsrc & E1 & L1)|
+          (Hex & d1' & ns & b & here & tape1' & Ee & Hch & E1 & L1)]]]].
     + rewrite E1 in E. rewrite L1 in Hlog |- *.
-      apply (IH d next tape d1 next1 tape1); [|exact E|exact Hlog].
+      apply (IH d next tape vis d1 next1 tape1 vis1); [|exact E|exact Hlog].
       apply (LInv_skip N att d x (cur ++ next) Hexp). exact Hinv.
-    + rewrite E1 in E. injection E as _ E2 _ _. subst r. destruct Hr as [Hr|Hr]; discriminate Hr.
+    + rewrite E1 in E. rewrite L1 in Hlog |- *.
+      apply (IH d _ tape (x :: vis) d1 next1 tape1 vis1); [|exact E|exact Hlog].
+      apply (LInv_hand N att d x cur next Hexp). exact Hinv.
+    + rewrite E1 in E. injection E as _ E2 _ _ _. subst r. destruct Hr as [Hr|Hr]; discriminate Hr.
     + rewrite E1 in E. rewrite L1 in Hlog |- *. unfold log_after in Hlog |- *. simpl in Hlog |- *.
       destruct (ff_LInv N att d x cur next Hinv Hex Hsrc) as [Hinv' Hno].
-      destruct (IH _ _ _ _ _ _ Hinv' E Hlog) as (K1 & K2 & K3).
+      destruct (IH _ _ _ _ _ _ _ _ Hinv' E Hlog) as (K1 & K2 & K3).
       pose proof Hinv as (_ & _ & _ & H4 & _).
       assert (Hx : x < size d) by (apply H4; left; reflexivity).
       pose proof (frame_stable d _ x (frame_ff N d x Hx) Hex) as Hst.
@@ -1612,11 +1648,11 @@ Proof.
     + rewrite E1 in E. rewrite L1 in Hlog |- *. unfold log_after in Hlog |- *. simpl in Hlog |- *.
       assert (Hlog' : att = true -> clean_log_ok N here /\
                 clean_log_ok N (fst (block_level_log N cfg maa opt sz (if b then set_empty_seeds d1' x else d1')
-                                       cur (union_nat next ns) tape1'))).
+                                       cur (union_nat next ns) tape1' (x :: vis)))).
       { intro Hm. apply clean_log_ok_app. apply Hlog. exact Hm. }
       destruct (norm_LInv N cfg maa att d x cur next d1' ns b here Hmm Hatt Hinv Hex Ee Hch (fun Hm => proj1 (Hlog' Hm)))
         as (Hinv' & Hfr & Hno).
-      destruct (IH _ _ _ _ _ _ Hinv' E (fun Hm => proj2 (Hlog' Hm))) as (K1 & K2 & K3).
+      destruct (IH _ _ _ _ _ _ _ _ Hinv' E (fun Hm => proj2 (Hlog' Hm))) as (K1 & K2 & K3).
       pose proof (frame_stable d _ x Hfr Hex) as Hst.
       split; [exact K1|]. split; [eapply stable_trans; eauto|].
       intros Hm y Hy. apply in_app_or in Hy. destruct Hy as [Hy|Hy]; [|apply (K3 Hm y Hy)].
@@ -1624,47 +1660,48 @@ Proof.
       apply (NoOwn_stable N _ d1 x K2 (Hno eq_refl Hm)).
 Qed.
 
-Lemma level_result : forall N cfg maa opt sz cur d next tape d1 r next1 tape1,
-  block_level N cfg maa opt sz d cur next tape = (d1, r, next1, tape1) ->
+Lemma level_result : forall N cfg maa opt sz cur d next tape vis d1 r next1 tape1 vis1,
+  block_level N cfg maa opt sz d cur next tape vis = (d1, r, next1, tape1, vis1) ->
   r = RUnit \/ r = RBool false \/ r = RRaised ErrMotifLimit.
 Proof.
-  intros N cfg maa opt sz. induction cur as [|x cur IH]; intros d next tape d1 r next1 tape1 E.
-  - cbn [block_level] in E. injection E as _ E2 _ _. left. symmetry. exact E2.
-  - destruct (level_cons N cfg maa opt sz d x cur next tape)
-      as [(_ & E1 & _)|[(d' & r' & n' & t' & Hr & E1)|[(_ & _ & _ & E1 & _)|
-          (_ & d1' & ns & b & here & tape1' & _ & _ & E1 & _)]]]; rewrite E1 in E.
-    + apply (IH _ _ _ _ _ _ _ E).
-    + injection E as _ E2 _ _. subst r'. right. exact Hr.
-    + apply (IH _ _ _ _ _ _ _ E).
-    + apply (IH _ _ _ _ _ _ _ E).
+  intros N cfg maa opt sz. induction cur as [|x cur IH]; intros d next tape vis d1 r next1 tape1 vis1 E.
+  - cbn [block_level] in E. injection E as _ E2 _ _ _. left. symmetry. exact E2.
+  - destruct (level_cons N cfg maa opt sz d x cur next tape vis)
+      as [(_ & _ & E1 & _)|[(_ & _ & E1 & _)|[(d' & r' & n' & t' & v' & Hr & E1)|[(_ & _ & _ & E1 & _)|
+          (_ & d1' & ns & b & here & tape1' & _ & _ & E1 & _)]]]]; rewrite E1 in E.
+    + apply (IH _ _ _ _ _ _ _ _ _ E).
+    + apply (IH _ _ _ _ _ _ _ _ _ E).
+    + injection E as _ E2 _ _ _. subst r'. right. exact Hr.
+    + apply (IH _ _ _ _ _ _ _ _ _ E).
+    + apply (IH _ _ _ _ _ _ _ _ _ E).
 Qed.
 
 Lemma loop_inv : forall N cfg maa att opt sz, 1 <= max_motifs cfg -> (att = true -> maa = true) ->
-  forall fuel d cur tape d',
-  LInv N att d cur -> block_loop fuel N cfg maa opt sz d cur tape = (d', RBool true) ->
-  (att = true -> clean_log_ok N (fst (block_loop_log fuel N cfg maa opt sz d cur tape))) ->
+  forall fuel d cur tape vis d',
+  LInv N att d cur -> block_loop fuel N cfg maa opt sz d cur tape vis = (d', RBool true) ->
+  (att = true -> clean_log_ok N (fst (block_loop_log fuel N cfg maa opt sz d cur tape vis))) ->
   LInv N att d' [] /\ stable d d' /\
-  (att = true -> forall y, In y (snd (block_loop_log fuel N cfg maa opt sz d cur tape)) -> NoOwn N d' y).
+  (att = true -> forall y, In y (snd (block_loop_log fuel N cfg maa opt sz d cur tape vis)) -> NoOwn N d' y).
 Proof.
-  intros N cfg maa att opt sz Hmm Hatt. induction fuel as [|f IH]; intros d cur tape d' Hinv E Hlog.
+  intros N cfg maa att opt sz Hmm Hatt. induction fuel as [|f IH]; intros d cur tape vis d' Hinv E Hlog.
   - cbn [block_loop] in E. discriminate E.
   - cbn [block_loop] in E. cbn [block_loop_log] in Hlog |- *. destruct cur as [|c cur'].
     { injection E as E1. subst d'. split; [exact Hinv|]. split; [apply stable_refl|]. intros _ y []. }
     remember (c :: cur') as cur eqn:Ecur.
     clear Ecur c cur'.
-    destruct (block_level N cfg maa opt sz d (sort_nat cur) [] tape) as [[[d1 r] next1] tape1] eqn:EL.
-    destruct (block_level_log N cfg maa opt sz d (sort_nat cur) [] tape) as [lg em] eqn:ELog.
-    destruct (level_result _ _ _ _ _ _ _ _ _ _ _ _ _ EL) as [Hr|[Hr|Hr]]; subst r; try discriminate E.
+    destruct (block_level N cfg maa opt sz d (sort_nat cur) [] tape vis) as [[[[d1 r] next1] tape1] vis1] eqn:EL.
+    destruct (block_level_log N cfg maa opt sz d (sort_nat cur) [] tape vis) as [lg em] eqn:ELog.
+    destruct (level_result _ _ _ _ _ _ _ _ _ _ _ _ _ _ _ EL) as [Hr|[Hr|Hr]]; subst r; try discriminate E.
     assert (Hinv0 : LInv N att d (sort_nat cur ++ [])).
     { apply (LInv_ext N att d cur); [|exact Hinv]. intro y. rewrite app_nil_r. symmetry. apply BM_sort_nat_In. }
-    destruct (block_loop_log f N cfg maa opt sz d1 next1 tape1) as [lg2 em2] eqn:EL2.
+    destruct (block_loop_log f N cfg maa opt sz d1 next1 tape1 vis1) as [lg2 em2] eqn:EL2.
     simpl in Hlog |- *.
     assert (Hlog' : att = true -> clean_log_ok N lg /\ clean_log_ok N lg2)
       by (intro Hm; apply clean_log_ok_app; apply Hlog; exact Hm).
-    destruct (level_inv N cfg maa att opt sz Hmm Hatt (sort_nat cur) d [] tape d1 next1 tape1 Hinv0 EL)
+    destruct (level_inv N cfg maa att opt sz Hmm Hatt (sort_nat cur) d [] tape vis d1 next1 tape1 vis1 Hinv0 EL)
       as (K1 & K2 & K3).
     { rewrite ELog. simpl. intro Hm. apply (Hlog' Hm). }
-    destruct (IH d1 next1 tape1 d' K1 E) as (J1 & J2 & J3).
+    destruct (IH d1 next1 tape1 vis1 d' K1 E) as (J1 & J2 & J3).
     { rewrite EL2. simpl. intro Hm. apply (Hlog' Hm). }
     split; [exact J1|]. split; [eapply stable_trans; eauto|].
     intros Hm y Hy. apply in_app_or in Hy. destruct Hy as [Hy|Hy].
@@ -1709,7 +1746,7 @@ Proof.
   pose proof (expand_block_extends fuel N cfg (init N) maa opt sz tape (init_SWF N)) as Hext.
   rewrite E in Hes, Hext. simpl in Hes, Hext.
   unfold expand_block in E. unfold expand_block_log in Hlog |- *.
-  destruct (loop_inv N cfg maa att opt sz Hmm Hatt fuel (init N) [0] tape d' (init_LInv N att) E Hlog)
+  destruct (loop_inv N cfg maa att opt sz Hmm Hatt fuel (init N) [0] tape [] d' (init_LInv N att) E Hlog)
     as ((H1 & H2 & _ & _ & H5 & H6 & H7) & _ & H8).
   split; [exact H1|]. split; [exact H2|]. split; [exact Hes|].
   split; [rewrite (extends_space _ _ 0 Hext (swf_size N _ (init_SWF N))); apply init_root|].
